@@ -107,6 +107,8 @@ def run(ctx: RuleContext, p: Program) -> None:
     from . import tokenstore as T
     ctx.try_rule(T.rule_ts_gate, T.TS(p), 'TS-GATE')
     ctx.try_rule(rule_detach_gate, p, 'DETACH-GATE')
+    from . import round4
+    ctx.try_rule(round4.rule_mixin_batch, p, 'MIXIN-BATCH')
     st = it.stats
     ctx.stats['effect_interpreter'] = {
         'entries': n, 'mutating_entries': mutating, 'skipped_same_signature_in_quick': ents.get('_skipped_same_signature', 0),
